@@ -68,9 +68,14 @@ def _grid():
                     yield text
 
 
+def opt_cases(tier: str):
+    """Cases also executed by an interpreter started with -O (see vf/optpass.py)."""
+    return drive.opt_sweep_cases(tier)
+
+
 def enumerate_cases(tier: str):
     # one event of every kind under every environment dimension (transport kind, logging, warnings, a bystander gateway, registry file, ...)
-    yield from drive.env_sweep_cases()
+    yield from drive.all_sweep_cases()
     for stored in ("2.2.0", "2.3.2", "2.0", "1.5.1", "1.4", "", "garbage"):
         for report in ("2.2.0", "1.5", "2.1.1"):
             yield {"kind": "persisted", "stored": stored, "report": report}
@@ -136,6 +141,16 @@ def enumerate_cases(tier: str):
                 ops = [["rx", f"0;255;0;0;18;{a}\n"], ["probe", "edge"], ["rx", f"0;255;3;0;2;{b}\n"], ["probe", "edge"], ["rx", f"0;255;0;0;18;{a}\n"], ["probe", "edge"],
                        ["rx", f"0;255;3;0;2;{b}\n"], ["rx", f"0;255;3;0;2;{b}\n"], ["probe", "edge"], ["rx", f"0;255;3;0;2;{a}\n"], ["rx", f"0;255;3;0;2;{b}\n"], ["rx", f"0;255;3;0;2;{a}\n"], ["probe", "edge"]]
                 yield {"kind": "hist", "listen_mode": mode, "ops": ops, "via": via}
+    # the way the previous session ended; a report that arrives behind a long backlog
+    for report in ("1.5.1", "2.1.1", "2.2.0"):
+        for how in ("transport", "failed", "runtime", "cancelled"):
+            for via in (None, "mqtt"):
+                ops = [["session"], ["rx", f"0;255;3;0;2;{report}\n"], ["probe", "edge"], ["session", how], ["probe", "edge"], ["rx", "0;255;3;0;9;log\n"], ["session", how], ["session"], ["probe", "edge"]]
+                yield {"kind": "hist", "listen_mode": "fresh", "ops": ops, "via": via}
+    for via in (None, "mqtt", "stream"):
+        for count in (10, 999, 1000, 1001, 5000):
+            ops = [["rx", "0;255;3;0;2;1.5.0\n"], ["backlog", count, "0;255;3;0;2;2.2.0\n"], ["probe", "edge"], ["backlog", count, "0;255;0;0;18;2.0.0\n"], ["probe", "edge"]]
+            yield {"kind": "hist", "listen_mode": "fresh", "ops": ops, "via": via}
     for sender in (0, 255, 78, 254):
         for report in (None, "1.5.1", "2.0.0", "2.2.0"):
             ops = ([] if report is None else [["rx", f"0;255;3;0;2;{report}\n"]]) + [["probe", "all"]]
@@ -410,10 +425,44 @@ def _run_hist(case: dict) -> Outcome:
                 if listener is not None:
                     await listener.close()
                 if in_session:
-                    await gateway.__aexit__(None, None, None)
+                    how = op[2] if len(op) > 2 else None
+                    if how:
+                        # the session ends because an error leaves the `async with` block (a lost link, a bug in the application's loop)
+                        from aiomysensors.exceptions import TransportError as _TE, TransportFailedError as _TFE
+
+                        err = {"transport": _TE("link lost"), "failed": _TFE("link lost"), "runtime": RuntimeError("application bug"), "cancelled": asyncio.CancelledError()}[how]
+                        await gateway.__aexit__(type(err), err, None)
+                    else:
+                        await gateway.__aexit__(None, None, None)
                 await gateway.__aenter__()
                 in_session = True
                 op = ["rx", "0;255;3;0;9;session restarted\n"]
+            if op[0] == "backlog":
+                # the report arrives behind a backlog of n other lines that were all delivered before the application reads any of them
+                count, report = int(op[2]), op[3]
+                if listener is not None:
+                    await listener.close()
+                _t.eager = True
+                _t.inbox.extend(["0;255;3;0;9;backlog line\n"] * count + [report])
+                agen = gateway.listen()
+                seen = 0
+                try:
+                    for _ in range(count + 1):
+                        try:
+                            await agen.__anext__()
+                            seen += 1
+                        except env.Drained:
+                            break
+                finally:
+                    await agen.aclose()
+                    _t.inbox.clear()
+                    _t.eager = False
+                text = _report_text(report)
+                if seen != count + 1:
+                    return fail("report-swallowed", f"step {idx}: {count} lines and then {report!r} were delivered; only {seen} messages could be read (protocol_version {gateway.protocol_version!r})")
+                if text is not None and ref_protocol(text) is not None and gateway.protocol_version != text:
+                    return fail("report-not-stored", f"step {idx}: {report!r} arrived behind a backlog of {count} lines; protocol_version={gateway.protocol_version!r}")
+                continue
             status, value = await deliver(op[1])
             reported, rules = gateway.protocol_version, gateway.protocol.VERSION
             text = _report_text(op[1])
